@@ -25,7 +25,8 @@ LEVEL_TEXT = ("For every McpPydanticBase subclass found by walking chuk_mcp.prot
               "message kind and type(id) must be identical, and each documented invariant must be enforced by both or neither."
               " Numeric ranges of the priority members are pinned from the schema (0..1 inclusive) and probed on both sides under both backends."
               " The reverse-order workers also hold an application module whose generic aliases share names with model classes; extras named after the implementation's vocabulary."
-              ' Also 80 wire objects pinned from the 2025-06-18 specification (vf/spec_examples.py) for 45 models, and unknown members spelled like the Python name of an aliased field.')
+              ' Also 80 wire objects pinned from the 2025-06-18 specification (vf/spec_examples.py) for 45 models, and unknown members spelled like the Python name of an aliased field.'
+              ' Also, at every model-typed position, the object whose required members hold the empty value of their type; and every module imported in a process where Pydantic cannot be imported at all.')
 LEVEL_NOTE = ("Trusted: MCP_FORCE_FALLBACK=1 selects the fallback (each worker reports PYDANTIC_AVAILABLE; the run is "
               "inconclusive if the two reports do not differ); the generator's notion of spec-valid (required present, "
               "Literals at their value, no explicit null for optional members). Transport parameter classes are config "
